@@ -172,7 +172,9 @@ func checkC14(e *Engine, r *Report) {
 	ib := e.Fn(pkgIndexer, "KVIndexer.IndexBlock")
 	r.Rule("R2", "PAIR+WHO-MAY-CALL", "indexer batch discipline: every database mutation of package indexer goes through the batch created in IndexBlock; the batch is written exactly once, after the loop, and its error is returned; saveTxResult stores both index entries or returns an error", 4, func() {
 		nb := callsIn(ib, false, func(c ssa.CallInstruction) bool { return isMethodNamed(c, "NewBatch") })
-		wr := callsIn(ib, true, func(c ssa.CallInstruction) bool { return isMethodNamed(c, "Write") && strings.Contains(c.Common().Value.Type().String(), "Batch") })
+		wr := callsIn(ib, true, func(c ssa.CallInstruction) bool {
+			return isMethodNamed(c, "Write") && strings.Contains(c.Common().Value.Type().String(), "Batch")
+		})
 		ok := len(nb) == 1 && len(wr) == 1
 		if ok {
 			w := wr[0]
